@@ -11,7 +11,8 @@ import tlc
 from base import Ctx
 from common import SPEC, MachineryError, cps, package_dir, text
 
-CLAUSES = {"accepted-but-invalid", "rejected-but-valid", "compact-differs", "validate-not-true"}
+CLAUSES = {"accepted-but-invalid", "rejected-but-valid", "compact-differs", "validate-not-true",
+           "object-answers-differently-when-asked-again"}
 ENTRY = ("bic.new", "bic.validate", "bic.is_valid")
 SEEDS = ["AAAADEAA", "AAAADEAAAAA", "1A2BFR9Z", "1A2BFR9ZXXX"]
 SIGMA1 = [65, 90, 48, 57, 97, 122, 32, 45, 95, 46, 1632, 196, 65313, 8203, 9, 0]
